@@ -185,6 +185,31 @@ Theorem C10_reset_sequence_holds_of_model : forall st l,
 Proof. exact reset_seq_model_spec. Qed.
 Print Assumptions C10_reset_sequence_holds_of_model.
 
+(* ---- 11. the setters of the object: each writes exactly its own field(s); setters of distinct fields commute; after the four setters
+            ID() prints the five set values in the order hZoom/x/y/vZoom/z whatever the object held before ---- *)
+Theorem C10_setter_writes_its_field_only : forall st x y z h v,
+  apply_setter st (SX x) = mk (eh st) x (ey st) (ev st) (ef st) /\ apply_setter st (SY y) = mk (eh st) (ex st) y (ev st) (ef st) /\
+  apply_setter st (SZ z) = mk (eh st) (ex st) (ey st) (ev st) z /\ apply_setter st (SZoom h v) = mk h (ex st) (ey st) v (ef st).
+Proof. exact setter_fields. Qed.
+Print Assumptions C10_setter_writes_its_field_only.
+Theorem C10_setters_commute : forall st c d, setter_field c <> 4%nat -> setter_field d <> 4%nat -> setter_field c <> setter_field d ->
+  apply_setter (apply_setter st c) d = apply_setter (apply_setter st d) c.
+Proof. exact setters_commute. Qed.
+Print Assumptions C10_setters_commute.
+Theorem C10_ID_after_setters : forall st h x y v z,
+  let o := apply_setter (apply_setter (apply_setter (apply_setter st (SZ z)) (SY y)) (SX x)) (SZoom h v) in
+  o = mk h x y v z /\ print_eid o = join [print h; print x; print y; print v; print z] /\ field_params o = [h; x; y; v; z].
+Proof. exact ID_after_setters. Qed.
+Print Assumptions C10_ID_after_setters.
+Theorem C10_checker_setters : forall l obs, check_setters l obs = true <-> Forall2 setter_step_spec (run_setters zero_eid l) obs.
+Proof. exact check_setters_sound. Qed.
+Print Assumptions C10_checker_setters.
+Theorem C10_setters_hold_of_model : forall l, all_fields_ok l ->
+  Forall2 setter_step_spec (run_setters zero_eid l)
+          (map (fun o => (fst o, print_eid (snd o), field_params (snd o), field_params (snd o))) (run_setters zero_eid l)).
+Proof. exact setters_model_spec. Qed.
+Print Assumptions C10_setters_hold_of_model.
+
 (* ---- non-vacuity and witnesses ---- *)
 (* both round trips on concrete lists with x <> y <> f, negative f, duplicates *)
 Example C10_nonvacuous_round_trips :
@@ -213,3 +238,9 @@ Example C10_voxel_id_examples :
   voxel_id "25/29803148/13212522/25/-7" = [29803148; 13212522; -7] /\
   voxel_id "1/x/99999999999999999999/1/-99999999999999999999/9/9" = [0; 2 ^ 63 - 1; - 2 ^ 63] /\ voxel_id "1/2/3/4" = [].
 Proof. vm_compute. repeat split; reflexivity. Qed.
+(* x, y beyond 2^31 at zoom 35 and vertical indices near the ends of the grid / of int64 survive parse-then-print *)
+Example C10_nonvacuous_wide_fields :
+  valid (mk 35 34359738367 34359738367 35 (-7)) /\ new_eid "35/34359738367/34359738367/35/-7" = Ok (mk 35 34359738367 34359738367 35 (-7)) /\
+  print_eid (mk 35 4294967301 17 20 3) = "35/4294967301/17/20/3"%string /\
+  print_eid (apply_setter (apply_setter zero_eid (SX 8589934601)) (SZ (- 2 ^ 62))) = "0/8589934601/0/0/-4611686018427387904"%string.
+Proof. split; [unfold valid; cbn; lia|]. vm_compute. repeat split; reflexivity. Qed.
